@@ -49,32 +49,31 @@ theorem gen_tristate_dispatch :
     Gen.applyChangesDeleteTests ≥ 4 ∧ Gen.applyChangesNormalizeCalls ≥ 3
     ∧ Gen.applyMutationsDeleteTests ≥ 1 ∧ Gen.applyMutationsNormalizeCalls ≥ 1 := by decide
 
-/-! ## Clause 1 — a field that is absent is never written out -/
+/-- `emit` appends the META text only when it is non-empty (repo commit 7caeb79 closed F85: a META whose
+values are all Absent used to leave a blank line).  A revert makes this fact — and the correspondence — fail. -/
+theorem gen_emit_checks_meta_text : Gen.emitChecksMetaText = true := by decide
 
-/-- Known-finding class F85: META is non-empty and every META value is Absent (`emit` then appends the
-empty text of `emit_meta`, i.e. a blank line).  `Gen.emitChecksMetaText` is regenerated from `emit`. -/
-def KF_meta_all_absent (d : Doc) : Bool := metaAllAbsent d.«meta»
+/-- the CLI `write --changes` has no change-application loop of its own: it calls `_apply_changes`
+(repo commit 1dc8194 closed F28 / F81 / F82). -/
+theorem gen_cli_shares_apply_changes :
+    Gen.cliHasChangesLoop = false ∧ Gen.cliApplyChangesCalls ≥ 1 ∧ Gen.cliMetaReplacedByCopy = false := by decide
+
+/-! ## Clause 1 — a field that is absent is never written out -/
 
 /-- MASTER: emitting a document = emitting the document with EVERY Absent site removed (top-level,
 block and section children at any depth, META entries, nested META entries, list items and inline-map
-values at any depth), for every renderer.  Partial: outside F85 (or once `emit` checks the META text). -/
-theorem C18_absent_silent_partial (E : Env) (d : Doc)
-    (h : Gen.emitChecksMetaText = true ∨ KF_meta_all_absent d = false) :
-    emitLines E (pruneDoc d) = emitLines E d := by
+values at any depth), for every renderer. -/
+theorem C18_absent_silent (E : Env) (d : Doc) : emitLines E (pruneDoc d) = emitLines E d := by
   unfold emitLines pruneDoc
-  simp only [envelope, metaBlock_prune E d.«meta» h, emitNodes_prune E .top d.nodes 0]
+  simp only [envelope, metaBlock_prune E d.«meta», emitNodes_prune E .top d.nodes 0]
 
-theorem C18_absent_silent_text_partial (E : Env) (d : Doc)
-    (h : Gen.emitChecksMetaText = true ∨ KF_meta_all_absent d = false) :
-    emitText E (pruneDoc d) = emitText E d := by
-  unfold emitText; rw [C18_absent_silent_partial E d h]
+theorem C18_absent_silent_text (E : Env) (d : Doc) : emitText E (pruneDoc d) = emitText E d := by
+  unfold emitText; rw [C18_absent_silent E d]
 
 /-- two documents that differ only by Absent sites (anywhere, any number) have the same text. -/
-theorem C18_absent_sites_any_depth_partial (E : Env) (d₁ d₂ : Doc) (hp : pruneDoc d₁ = pruneDoc d₂)
-    (h₁ : Gen.emitChecksMetaText = true ∨ KF_meta_all_absent d₁ = false)
-    (h₂ : Gen.emitChecksMetaText = true ∨ KF_meta_all_absent d₂ = false) :
+theorem C18_absent_sites_any_depth (E : Env) (d₁ d₂ : Doc) (hp : pruneDoc d₁ = pruneDoc d₂) :
     emitText E d₁ = emitText E d₂ := by
-  rw [← C18_absent_silent_text_partial E d₁ h₁, ← C18_absent_silent_text_partial E d₂ h₂, hp]
+  rw [← C18_absent_silent_text E d₁, ← C18_absent_silent_text E d₂, hp]
 
 /-- site: top-level assignment (with its leading/trailing comments). -/
 theorem C18_absent_silent_top (E : Env) (d : Doc) (pre post : List Node) (lead : List Str) (k : Str) (trail : Option Str) :
@@ -114,30 +113,10 @@ theorem C18_absent_silent_nested_meta (E : Env) (pre post p1 p2 : List (Str × V
     rw [← metaLines_prune E (pre ++ (k, .dict (p1 ++ (j, .absent) :: p2)) :: post), pruneMeta_nested_site, metaLines_prune]
   simp [metaBlock, h]
 
-/-- site: META entry.  Partial (F85): the entry must not be the only one, unless `emit` checks the text. -/
-theorem C18_absent_silent_meta_partial (E : Env) (pre post : List (Str × Val)) (k : Str)
-    (hg : Gen.emitChecksMetaText = true ∨ pre ++ post ≠ []) :
+/-- site: META entry — also when it is the only entry (then no META block at all, and no blank line). -/
+theorem C18_absent_silent_meta (E : Env) (pre post : List (Str × Val)) (k : Str) :
     metaBlock E (pre ++ (k, .absent) :: post) = metaBlock E (pre ++ post) := by
-  have h : metaLines E (pre ++ (k, .absent) :: post) = metaLines E (pre ++ post) := by
-    rw [← metaLines_prune E (pre ++ (k, .absent) :: post), pruneMeta_site, metaLines_prune]
-  unfold metaBlock
-  rw [h]
-  by_cases he : pre ++ post = []
-  · have hl : metaLines E (pre ++ post) = [] := by rw [he]; rfl
-    rcases hg with hg | hg
-    · simp [he, hg, metaLines]
-    · exact absurd he hg
-  · have h1 : (pre ++ (k, Val.absent) :: post).isEmpty = false := by cases pre <;> rfl
-    have h2 : (pre ++ post).isEmpty = false := by
-      cases hpp : pre ++ post with
-      | nil => exact absurd hpp he
-      | cons _ _ => rfl
-    simp [h1, h2]
-
-/-- F85 on its witness: with the code as it stands the only-entry case DOES differ (a blank line). -/
-theorem C18_KF_meta_all_absent (hcode : Gen.emitChecksMetaText = false) (E : Env) (k : Str) :
-    metaBlock E [(k, .absent)] = [[]] ∧ metaBlock E [] = [] ∧ KF_meta_all_absent { «meta» := [(k, .absent)] } = true := by
-  simp [metaBlock, metaLines, hcode, KF_meta_all_absent, metaAllAbsent, pruneMeta]
+  rw [← metaBlock_prune E (pre ++ (k, .absent) :: post), pruneMeta_site, metaBlock_prune]
 
 /-- no emission site hands Absent to the renderer (Python would raise ValueError there): two renderers
 that agree off Absent produce the same text for every document. -/
@@ -213,6 +192,26 @@ theorem C18_frame_meta (d : Doc) (rs : List Request) (named : Str → Bool)
   | cons op rest ih =>
     simp only [List.foldl_cons]
     rw [ih (fun op' h' => h op' (by simp [h'])) (runMetaOp m op), runMetaOp_filter_unnamed named m op (h op (by simp))]
+
+/-- the keys a list of entries names satisfy the frame hypothesis (and form the least such set). -/
+theorem namesTop_spec (cs : List (Str × JVal)) :
+    ∀ c ∈ cs, ∀ k r, topEffect c = some (k, r) → namesTop cs k = true := by
+  intro c hc k r he
+  simp only [namesTop, List.any_eq_true]
+  exact ⟨c, hc, by simp [he]⟩
+
+/-- FRAME with the exact named set — nothing to assume: every node that is not an assignment whose key
+some request of the history names is the same node at the same relative position afterwards. -/
+theorem C18_frame_named (d : Doc) (rs : List Request) :
+    (applyRequests d rs).nodes.filter (unnamedNode (namesTop (rs.flatMap (·.changes))))
+      = d.nodes.filter (unnamedNode (namesTop (rs.flatMap (·.changes)))) :=
+  C18_frame d rs _ (namesTop_spec _)
+
+theorem C18_frame_meta_named (d : Doc) (rs : List Request) :
+    (applyRequests d rs).«meta».filter (fun p => !(rs.flatMap metaOps).any (fun op => op.names p.1))
+      = d.«meta».filter (fun p => !(rs.flatMap metaOps).any (fun op => op.names p.1)) :=
+  C18_frame_meta d rs (fun f => (rs.flatMap metaOps).any (fun op => op.names f))
+    (fun op hop f hf => by simp only [List.any_eq_true]; exact ⟨op, hop, hf⟩)
 
 /-- FRAME (envelope): name, grammar sentinel, frontmatter, separator and trailing comments never change. -/
 theorem C18_frame_envelope (d : Doc) (rs : List Request) :
@@ -403,33 +402,24 @@ theorem C18_sequence_unnamed (d : Doc) (rs : List Request) (k : Str)
     rw [this]
     exact ih (fun c' hc' => h c' (by simp [hc'])) acc
 
-/-! ## Negative — F28: the CLI `--changes` loop has no tri-state dispatch -/
+/-! ## The CLI entry point (F28 / F81 / F82 fixed in repo commit 1dc8194) -/
 
 /-- the DELETE sentinel as a request value. -/
 def deleteSentinel : JVal := .obj [(Gen.deleteOpKey, .str Gen.deleteOpVal)]
 
-/-- F28, for EVERY document and every ordinary key: after the CLI loop the key is PRESENT and holds the
-sentinel dict as its value, whereas `_apply_changes` (what the property demands) leaves the key absent. -/
-theorem C18_KF_cli_delete (d : Doc) (k : Str) (hk : classify k = .top) :
-    lookupTop k (cliApply d [(k, deleteSentinel)]).nodes = some (.dict [(Gen.deleteOpKey, .str Gen.deleteOpVal)])
-      ∧ lookupTop k (applyChanges d [(k, deleteSentinel)]).nodes = none := by
+/-- `octave write --changes` obeys every theorem above: on the AST it is `_apply_changes`.  In particular
+a DELETE sentinel removes the key (it used to be written out as the value), a list is normalised (it used to
+be stored raw) and `META{…}` merges (it used to replace). -/
+theorem C18_cli_is_apply_changes (d : Doc) (changes : List (Str × JVal)) :
+    cliApply d changes = applyRequest d { changes := changes } := by
+  simp [cliApply, applyRequest, applyMutations]
+
+theorem C18_cli_delete (d : Doc) (k : Str) (hk : classify k = .top) :
+    lookupTop k (cliApply d [(k, deleteSentinel)]).nodes = none := by
   have hdel : isDel deleteSentinel = true := by decide
-  constructor
-  · simp [cliApply, cliChange, hk, cliSetTop, lookupTop_setTop_self, deleteSentinel, rawVal, rawPairs]
-  · simp [applyChanges, applyChange, hk, hdel, lookupTop_delTop_self]
+  simp [cliApply, applyChanges, applyChange, hk, hdel, lookupTop_delTop_self]
 
-/-- F82 (class kf_cli_meta_replace, same root cause as F28): the CLI REPLACES META by the request dict. -/
-theorem C18_KF_cli_meta_replace (d : Doc) (key : Str) (pairs : List (Str × JVal)) (hk : classify key = .metaWhole) :
-    (cliApply d [(key, .obj pairs)]).«meta» = rawPairs pairs := by
-  simp [cliApply, cliChange, hk]
-
-/-- F81 (class kf_cli_container_value, same root cause as F28): lists reach the AST as raw Python lists. -/
-theorem C18_KF_cli_raw_list (d : Doc) (k : Str) (items : List JVal) (hk : classify k = .top) :
-    lookupTop k (cliApply d [(k, .list items)]).nodes = some (.py (.list items))
-      ∧ lookupTop k (applyChanges d [(k, .list items)]).nodes = some (.list (normalizeList items)) := by
-  constructor
-  · simp [cliApply, cliChange, hk, cliSetTop, lookupTop_setTop_self, rawVal]
-  · simp [applyChanges, applyChange, hk, isDel, normalize, lookupTop_setTop_self]
+/-! ## Negative — open findings visible in the model -/
 
 /-- F84 (kf_map_relayout) in the emitter model: a map written by a value request (`InlineMap`, one line)
 and the same map as the parser returns it (a list of single-pair maps) have different layouts. -/
@@ -479,13 +469,12 @@ example : isDel deleteSentinel = true ∧ isDel (.obj [("$op".toList, .str "dele
     ∧ isDel (.obj [("op".toList, .str "DELETE".toList)]) = false ∧ isDel (.list [deleteSentinel]) = false
     ∧ isDel (.obj [("x".toList, .int 1), ("$op".toList, .str "DELETE".toList)]) = true := by decide
 
--- C18_absent_silent: a document with Absent at six kinds of site, not in the F85 class
+-- C18_absent_silent: a document with Absent at six kinds of site
 def exAbsentDoc : Doc :=
   { name := "D".toList, «meta» := [("X".toList, .absent), ("Y".toList, .dict [("a".toList, .absent), ("b".toList, .int 1)])],
     nodes := [.assign [] "A".toList .absent none,
               .block [] "B".toList none [.assign ["c".toList] "C".toList .absent none, .assign [] "D".toList (.list [.absent, .int 1, .map [("k".toList, .absent)]]) none],
               .sect [] "1".toList "S".toList none [.assign [] "E".toList .absent none]] }
-example : KF_meta_all_absent exAbsentDoc = false := by decide
 example : String.ofList (emitText exEnv exAbsentDoc) = "===D===\nMETA:\n  Y:\n    b::1\nB:\n  D::[1]\n§1::S\n===END===\n" := by decide
 -- tri-state hypotheses hold for the example renderer
 example : exEnv.scalar .null ≠ exEnv.scalar (.str []) ∧ exEnv.scalar .null ≠ ['[', ']'] ∧ exEnv.scalar (.str []) ≠ ['[', ']']
@@ -506,11 +495,37 @@ example : (applyChange exDoc ("META.TYPE".toList, .int 5)).«meta» = [("TYPE".t
 example : lookupTop "A".toList (applyRequests exDoc
     [{ changes := [("A".toList, .int 5)] }, { changes := [("A".toList, deleteSentinel)] }, { changes := [("A".toList, .str [])] }]).nodes
     = some (.str []) := rfl
--- F28 on a concrete document: the CLI keeps the key, the MCP path removes it
-example : hasAssign "B".toList (cliApply exDoc [("B".toList, deleteSentinel)]).nodes = true
-    ∧ hasAssign "B".toList (applyChanges exDoc [("B".toList, deleteSentinel)]).nodes = false := by decide
--- the CLI drops the unmentioned META field TYPE
-example : (cliApply exDoc [("META".toList, .obj [("VERSION".toList, .int 2)])]).«meta» = [("VERSION".toList, .int 2)] := rfl
+-- the CLI removes the key on DELETE and merges META (regression vectors of F28 / F82)
+example : hasAssign "B".toList (cliApply exDoc [("B".toList, deleteSentinel)]).nodes = false := by decide
+example : (cliApply exDoc [("META".toList, .obj [("VERSION".toList, .int 2)])]).«meta»
+    = [("TYPE".toList, .str "SPEC".toList), ("VERSION".toList, .int 2)] := rfl
+-- C18_absent_never_rendered: two different renderers that agree off Absent
+def exEnv' : Env := { exEnv with scalar := fun v => match v with | .absent => "ValueError".toList | v => exEnv.scalar v }
+example : EnvAgree exEnv exEnv' ∧ exEnv.scalar .absent ≠ exEnv'.scalar .absent :=
+  ⟨⟨fun v hv => by cases v <;> simp_all [exEnv', Val.isAbsent], rfl, rfl, rfl⟩, by decide⟩
+-- frame: naming A leaves exactly B and the block BLK (whose child is also called A) in the unnamed part
+example : (exDoc.nodes.filter (unnamedNode (namesTop [("A".toList, JVal.null)]))).length = 2 := by decide
+-- C18_sequence_unnamed: a history naming only B does not name A
+example : ∀ c ∈ ([{ changes := [("B".toList, JVal.null)] }] : List Request).flatMap (·.changes),
+    ∀ k' r, topEffect c = some (k', r) → k' ≠ "A".toList := by
+  intro c hc k' r he
+  simp at hc
+  subst hc
+  have : topEffect (['B'], JVal.null) = some (['B'], some .null) := rfl
+  rw [this] at he
+  cases he
+  decide
+-- C18_set_in_place / C18_set_appended hypotheses on the example document
+example : exDoc.nodes = [] ++ .assign ["first".toList] "A".toList (.int 1) (some "tr".toList) :: exDoc.nodes.tail
+    ∧ hasAssign "A".toList [] = false ∧ hasAssign "NEW".toList exDoc.nodes = false := ⟨rfl, rfl, rfl⟩
+-- C18_meta_merge / C18_meta_delete_all hypotheses
+example : classify "META".toList = .metaWhole ∧ isDel (.obj [("VERSION".toList, deleteSentinel), ("NEW".toList, .null)]) = false
+    ∧ isDel (.obj [("$op".toList, .str "DELETE".toList)]) = true := by decide
+-- C18_KF_map_relayout hypothesis
+example : "k".toList.head? ≠ some '\n' := by decide
+-- the former F85 witness: a META whose only value is Absent now emits exactly the text without META
+example : emitText exEnv { name := "D".toList, «meta» := [("X".toList, .absent)] } = emitText exEnv { name := "D".toList }
+    ∧ String.ofList (emitText exEnv { name := "D".toList, «meta» := [("X".toList, .absent)] }) = "===D===\n===END===\n" := by decide
 
 end Examples
 
